@@ -424,6 +424,13 @@ example : interpChecked ([0, 1, 2] : List ℚ) [0, 10, 20] [1, 5] .extrapolate
     = interpUnchecked ([0, 1, 2] : List ℚ) [0, 10, 20] [1, 5] .extrapolate :=
   checked_eq_unchecked knots_example _ _
 
+example := scan_brackets knots_example (3 / 2 : ℚ) (by decide +kernel) (by decide +kernel)
+example : (1 : Nat) = 1 :=
+  bracket_unique knots_example (1 / 2 : ℚ) 1 1 (by decide) (by decide) (by decide) (by decide)
+    (by decide +kernel) (by decide +kernel) (by decide +kernel) (by decide +kernel)
+example : idxOf ([0, 1, 2] : List ℚ) (3 / 2) = 2 := by
+  obtain ⟨p0, p1, b1, b2⟩ := scan_brackets knots_example (3 / 2 : ℚ) (by decide +kernel) (by decide +kernel)
+  exact bracket_unique knots_example (3 / 2 : ℚ) _ 2 p0 p1 (by decide) (by decide) b1 b2 (by decide +kernel) (by decide +kernel)
 /-! ### Duplicate abscissae
 
 The checked variant rejects a DESCENDING step only (`x[i+1] - x[i] < 0`): equal neighbouring abscissae pass the test
@@ -435,6 +442,12 @@ theorem above; the code then divides by a zero width in the segment between them
 theorem sortedOk_of_nondecreasing {α : Type} [Field α] [LinearOrder α] [IsStrictOrderedRing α] [Inhabited α]
     (x : List α) (h : ∀ i (hi : i + 1 < x.length), x[i] ≤ x[i + 1]) : sortedOk x = true :=
   (sortedOk_iff x).2 h
+
+example : sortedOk ([0, 1, 1, 2] : List ℚ) = true :=
+  sortedOk_of_nondecreasing _ (by
+    intro i hi
+    have : i = 0 ∨ i = 1 ∨ i = 2 := by simp at hi; omega
+    rcases this with rfl | rfl | rfl <;> simp)
 
 /-- witness: `[0,1,1,2]` is accepted and the tie at 1 yields the ordinate of the LATER of the two equal knots -/
 example : interpChecked ([0, 1, 1, 2] : List ℚ) [0, 10, 20, 30] [1] .extrapolate = some [20] := by decide +kernel
